@@ -61,7 +61,7 @@ def relay_cases(ctx, rng, n, scratch):
     default = sorted(rng.sample(range(1, nd + 1), rng.randint(1, nd)))
     sections = []
     for i, r in enumerate(rules):
-      body = 'pattern = %s\ndestinations = %s\n' % (render_pat(r['pat'], rng), ', '.join(dest_str(d) for d in r['dests']))
+      body = 'pattern = %s\ndestinations = %s\n' % (render_pat(r['pat'], rng), rng.choice([', ', ',', ' , ', ' ,']).join(dest_str(d) for d in r['dests']))
       if r['cont']:
         body += 'continue = %s\n' % rng.choice(['true', '1', 'yes', 'on', 'True'])
       elif rng.random() < 0.3:
@@ -74,6 +74,10 @@ def relay_cases(ctx, rng, n, scratch):
       sections.insert(rng.randint(0, len(sections)), ('decoy', 'default = false\ndestinations = %s\n' % dest_str(rng.randint(1, nd))))
     path = os.path.join(scratch, 'relay-rules-%d.conf' % k)
     with open(path, 'w') as fh:
+      if rng.random() < 0.4 and len(sections) > 1:
+        # comments that mention section headers (a commented-out old copy, a note): the order of the real headers counts
+        later = [n_ for n_, b_ in sections][::-1]
+        fh.write('# reviewed: [%s] must stay below [%s]\n#[%s]\n#pattern = old\n\n' % (later[0], later[-1], later[0]))
       for name, body in sections:
         fh.write('[%s]\n%s\n' % (name, body))
     settings = dict(ctx_settings)
